@@ -46,6 +46,11 @@ func mkKey(name string, alg uint8, bits int) keyPair {
 	if err != nil {
 		panic(err)
 	}
+	for k.KeyTag() == 0 { // one key in 65536: Sign refuses it (recorded finding C17/Sign/key-tag-zero); take another
+		if p, err = k.Generate(bits); err != nil {
+			panic(err)
+		}
+	}
 	return keyPair{k, p.(crypto.Signer), dns.AlgorithmToString[alg]}
 }
 
@@ -1108,6 +1113,8 @@ func runC18(r *Rng, tier string, n int) {
 	oracleNames(r, keys)
 	// (1g) the length of the signature field
 	oracleSigLens(r, keys)
+	// (1h) SIG values whose header and remaining fields the caller filled before Sign
+	oracleTemplates(r, keys, tier)
 	// (1d) KEY objects that change between calls; the window at its exact bounds
 	oracleKeyChange(r, keys)
 	oracleWindowExact(r, keys)
